@@ -505,6 +505,39 @@ pub fn run(ctx: &Ctx) -> Rep {
                 }
             }
         }
+        // cards written back to back: 2..7 cards with every choice of which neighbours are separated by a space
+        // and which are glued ("AsKd Qc": two tokens, the first of which is the ace - its tail is ignored), in
+        // letters and in glyphs; the number of tokens, not the number of card-like substrings, decides
+        let mut glued = 0u64;
+        for glyph in [false, true] {
+            let name = |i: u8| {
+                if glyph {
+                    format!("{}{}", model::RANK_CHARS[model::rank_of(i) as usize], ['♠', '♥', '♦', '♣'][model::suit_of(i) as usize])
+                } else {
+                    model::card_name(i)
+                }
+            };
+            for (base, stride) in [(0u8, 1u8), (3, 7), (50, 49)] {
+                for n in 2..=7usize {
+                    for mask in 0..(1u32 << (n - 1)) {
+                        if ctx.smoke() && mask % 5 != 0 {
+                            continue;
+                        }
+                        let mut s = String::new();
+                        for k in 0..n {
+                            if k > 0 && (mask >> (k - 1)) & 1 == 1 {
+                                s.push(' ');
+                            }
+                            s.push_str(&name(((base as usize + k * stride as usize) % 52) as u8));
+                        }
+                        check_text(&mut st, &s);
+                        glued += 1;
+                    }
+                }
+            }
+        }
+        st.rep.add("texts_with_cards_glued_back_to_back", glued);
+        st.rep.distinct += glued;
         st.rep.add("shortest_texts_by_token_length_pattern", n_texts);
         st.rep.add("distinct_token_count_and_byte_length_pairs", lens_seen.len() as u64);
         st.rep.distinct += n_texts;
